@@ -23,6 +23,7 @@ import Pysmi.Generated.Pysnmp
 import Pysmi.Generated.Smiv1
 import Pysmi.Model.Grammar
 import Pysmi.Generated.Grammar
+import Pysmi.Model.Names
 /-!
 Line-protocol driver: one JSON object per input line, one JSON value per output line.
 Imports only the import-free model files and `Lean.Data.Json`.
@@ -667,6 +668,9 @@ def opCli (j : Json) : Except String Json := do
     let cat (s : Pysmi.Compile.Status) : Json := .arr ((category p s).map Json.str).toArray
     return Json.mkObj [("exit", mibdumpExit ex p), ("compiled", cat .compiled), ("borrowed", cat .borrowed), ("untouched", cat .untouched),
       ("missing", cat .missing), ("unprocessed", cat .unprocessed), ("failed", cat .failed)]
+  else if what == "modrev" then
+    let revs ← getList (fun e => e.getNat?) (← j.getObjVal? "revs")
+    return Json.mkObj [("rev", match moduleRevision revs with | some v => (v : Json) | none => .null)]
   else
     let rev (x : Json) : Except String Rev := match x with | .null => pure none | _ => do return some (← x.getNat?)
     let dst ← getList (fun e => do
@@ -813,6 +817,13 @@ def opParse (ld : Loaded) (j : Json) : Except String Json := do
   | .other m => return Json.mkObj [("error", .str ("other: " ++ m))]
 end Pr
 
+namespace Nm
+/-- {"op":"trans","names":[…]} → {"keys":[…]} -/
+def opTrans (j : Json) : Except String Json := do
+  let names ← (← (← j.getObjVal? "names").getArr?).toList.mapM (fun n => n.getStr?)
+  return Json.mkObj [("keys", .arr ((names.map (fun n => Json.str (String.ofList (Pysmi.Names.trans n.toList)))).toArray))]
+end Nm
+
 namespace Gf
 /-- {"op":"factory","which":"parser"|"lexer","kw":[[name,bool],…]} → {"error":name} | {"ok":[[member,option],…]} -/
 def opFactory (j : Json) : Except String Json := do
@@ -854,6 +865,7 @@ def handle (j : Json) : Except String Json := do
   | "cli" => Cl.opCli j
   | "put2" => Wr.opPut2 j
   | "factory" => Gf.opFactory j
+  | "trans" => Nm.opTrans j
   | _ => throw s!"unknown op {op}"
 
 partial def loop (hin hout : IO.FS.Stream) (loaded : List (String × Pr.Loaded)) : IO Unit := do
